@@ -59,7 +59,10 @@ Definition c06_default_method (c : c06_cfg) (name : list N) : option c06_cfm :=
 (* "strings in the encryption dictionary / the trailer (/ID) are not encrypted"; "strings inside an
    object stream are not separately encrypted: the object stream as a whole is"; every other
    string belongs to an indirect object (number, generation) and is encrypted with its key *)
-Inductive c06_where := C6InObject | C6InObjStm | C6InTrailer.
+(* 7.6.2 (fourth exception, ISO 32000-2): the hexadecimal string that is the /Contents of a signature dictionary is not
+   encrypted (it is written after everything else was laid out). Table 255: the /Type /Sig entry of a signature
+   dictionary is optional; `typed` records whether the producer wrote it. *)
+Inductive c06_where := C6InObject | C6InObjStm | C6InTrailer | C6InSigContents (typed : bool).
 
 (* ------------------------------------------------------------------ the part of a stream dictionary that matters *)
 (* one entry of /DecodeParms: null / a dictionary (is /Type /CryptFilterDecodeParms there; /Name if any)
@@ -124,7 +127,7 @@ Definition c06_crypt_name (p : c06_parm) : list N :=
 Definition c06_iso_string_method (c : c06_cfg) (w : c06_where) : option c06_cfm :=
   match w with
   | C6InObject => c06_default_method c (c6_strf c)
-  | C6InObjStm | C6InTrailer => Some C6None
+  | C6InObjStm | C6InTrailer | C6InSigContents _ => Some C6None
   end.
 
 Definition c06_iso_stream_method (c : c06_cfg) (s : c06_sdict) : option c06_cfm :=
